@@ -13,16 +13,23 @@ c=json.load(open('$dir/meta.json'))['run_cmd']
 m=re.search(r'-run\s+(\S+)',c)
 print(m.group(1).strip(chr(39)+chr(34)) if m else '.')")
 pkgdir=$(dirname "$loc")
-restore() { cd /repo; git checkout -q -- . ; rm -f "/repo/$loc"; rmdir "/repo/$pkgdir" 2>/dev/null; }
-mkdir -p "/repo/$pkgdir"; cp "$dir/demo_test.go" "/repo/$loc"
+extras=$(python3 -c "
+import json
+m=json.load(open('$dir/meta.json')).get('demo_extra_files',{})
+print(' '.join(k+'='+v for k,v in m.items()))")
+put_demo() { cp "$dir/demo_test.go" "/repo/$loc"; for kv in $extras; do cp "$dir/${kv#*=}" "/repo/${kv%%=*}"; done; }
+del_demo() { rm -f "/repo/$loc"; for kv in $extras; do rm -f "/repo/${kv%%=*}"; done; }
+restore() { cd /repo; git checkout -q -- . ; del_demo; rmdir "/repo/$pkgdir" 2>/dev/null; }
+mkdir -p "/repo/$pkgdir"; put_demo
 go test -vet=off -count=1 -run "$pat" "./$pkgdir/" > /tmp/seed-demo-clean.out 2>&1; clean_rc=$?
-rm -f "/repo/$loc"
+del_demo
 if ! git apply "$dir/patch.diff"; then echo "PATCH-DOES-NOT-APPLY"; restore; exit 3; fi
 go test -vet=off -count=1 ./pkg/exec/... ./pkg/io/... ./pkg/runtime/... ./pkg/syntax/... ./pkg/value/... > /tmp/seed-suite.out 2>&1; suite_rc=$?
-cp "$dir/demo_test.go" "/repo/$loc"
+put_demo
 go test -vet=off -count=1 -run "$pat" "./$pkgdir/" > /tmp/seed-demo-mut.out 2>&1; mut_rc=$?
-rm -f "/repo/$loc"; rmdir "/repo/$pkgdir" 2>/dev/null
+del_demo; rmdir "/repo/$pkgdir" 2>/dev/null
 echo "CONFIRM demo-on-clean rc=$clean_rc (want 0) | suite-with-change rc=$suite_rc (want 0) | demo-with-change rc=$mut_rc (want !=0)"
+export ZSYM_OUT_DIR=/tmp/zsym-seed-out; mkdir -p $ZSYM_OUT_DIR
 cd /verif && ./check $id $tier > /tmp/seed-check.out 2>&1; check_rc=$?
 echo "CHECK $id $tier rc=$check_rc"
 grep -h "^VIOLATION\|^KNOWN" /tmp/seed-check.out | head -3
